@@ -36,6 +36,9 @@ theorem insertArr_get [Add K] [Mul K] (f : Fld K) (out : Arr K) (w : K) (post : 
       else out.get i j := by
   have hspec := insertIdx_spec f.arr.s0 f.arr.s1 f.o0 f.o1 out.s0 out.s1
   unfold insertArr
+  -- closed form of the generated accumulation term (`Gen.insertAccumIntensity`, `+=`)
+  have hterm : ∀ o d : K, insertTerm post o d w = o + post d * w := fun _ _ => rfl
+  simp only [hterm]
   cases hidx : Gen.insertIdx f.arr.s0 f.arr.s1 f.o0 f.o1 out.s0 out.s1 with
   | none =>
     rw [hidx] at hspec
